@@ -487,6 +487,52 @@ Section TP.
     - apply step_copy; assumption.
   Qed.
 
+  (* ---------------------------------------------------------------- Table_New with pairs, assign *)
+  Definition a_set_all (m : amap K V) (kvs : list entry) : amap K V :=
+    fold_left (fun m kv => a_set m (fst kv) (snd kv)) kvs m.
+
+  (* duplicates among the pairs allowed: later pairs win *)
+  Lemma set_all_refines : forall (kvs : list entry) t m, pre_inv t -> R t m ->
+    nitems t + length kvs < nslots t ->
+    exists t', set_all t kvs = Some t' /\ pre_inv t' /\ nslots t' = nslots t /\
+      nitems t' <= nitems t + length kvs /\ R t' (a_set_all m kvs).
+  Proof.
+    induction kvs as [|[k v] r IH]; intros t m Hp Hr Hload.
+    - exists t. split; [reflexivity|]. split; [assumption|]. split; [reflexivity|]. split; [lia|assumption].
+    - simpl in Hload. destruct Hr as [Hnd Hin].
+      destruct (set_move_spec t k v Hp ltac:(lia)) as [t1 [Hsm [Hp1 [Hns1 [Hit1 Hni1]]]]].
+      assert (Hr1 : R t1 (a_set m k v)).
+      { split; [apply nodup_a_set; assumption|]. intros e. rewrite Hit1, Hin. symmetry. apply in_a_set. assumption. }
+      destruct (IH t1 (a_set m k v) Hp1 Hr1 ltac:(lia)) as [t' [Hsa [Hp' [Hns' [Hni' Hr']]]]].
+      exists t'. split.
+      { simpl. rewrite Hsm. exact Hsa. }
+      split; [exact Hp'|]. split; [lia|]. split; [simpl; lia|exact Hr'].
+  Qed.
+
+  Lemma t_new_refines (kvs : list entry) :
+    exists t, t_new K V keq hash swap primes num den kvs = Some t /\ t_inv t /\ R t (a_set_all [] kvs).
+  Proof.
+    unfold TableModel.t_new. fold ideal.
+    pose proof (ideal_gt (length kvs)) as Hid. fold ideal in Hid.
+    set (t0 := mkT (repeat None (ideal (length kvs))) 0).
+    assert (Hns0 : nslots t0 = ideal (length kvs)) by apply repeat_length.
+    assert (Hr0 : R t0 []).
+    { split; [constructor|]. intros e. unfold t0, TableModel.t_iter. simpl. rewrite entries_repeat. tauto. }
+    destruct (set_all_refines kvs t0 [] (pre_inv_fresh _) Hr0) as [t' [Hsa [Hp' [Hns' [Hni' Hr']]]]].
+    - rewrite Hns0. simpl. lia.
+    - exists t'. split; [exact Hsa|]. split; [|exact Hr'].
+      split; [exact Hp'|]. left. rewrite Hns', Hns0. simpl in Hni'. lia.
+  Qed.
+
+  (* Table_Assign(self, src) with src another Table: self becomes a table with src's bindings *)
+  Lemma assign_from_refines src m : t_inv src -> R src m ->
+    exists t', t_assign_from src = Some t' /\ t_inv t' /\ R t' m.
+  Proof.
+    intros Hi [Hnd Hin]. destruct (assign_from_spec src Hi) as [t' [Ha [Hi' Hit']]].
+    exists t'. split; [exact Ha|]. split; [exact Hi'|]. split; [assumption|].
+    intros e. rewrite Hit'. apply Hin.
+  Qed.
+
   (* ---------------------------------------------------------------- histories *)
   Lemma t_inv_empty : t_inv t_empty.
   Proof.
@@ -678,6 +724,16 @@ Section Final.
     intros t m. pose proof (T_refines_map (ops ++ TResize K V 0 :: ops') o) as H.
     cbv zeta in H. rewrite spec_run_clear in H. exact H.
   Qed.
+
+  Lemma T_new_refines (kvs : list (entry K V)) :
+    exists t, t_new K V keq hash table_swap table_primes table_load_num table_load_den kvs = Some t /\
+      t_inv t /\ R t (a_set_all K V keq [] kvs).
+  Proof. apply (t_new_refines K V keq hash table_swap _ _ _ keq_spec table_swap_strict table_swap_ge ideal_gt). Qed.
+
+  Lemma T_assign_refines (src : table K V) (m : amap K V) : t_inv src -> R src m ->
+    exists t', t_assign_from K V keq hash table_swap table_primes table_load_num table_load_den src = Some t' /\
+      t_inv t' /\ R t' m.
+  Proof. apply (assign_from_refines K V keq hash table_swap _ _ _ keq_spec table_swap_strict table_swap_ge ideal_gt). Qed.
 End Final.
 
 (* ---------------------------------------------------------------- the old rule `if (j >= p)` *)
